@@ -165,11 +165,14 @@ class Entropy:
         self.script: t.List[bytes] = []
         self.collide = collide
         self._drawn: t.Dict[int, int] = {}
+        self.script_by_size: t.Dict[int, t.List[bytes]] = {}  # chosen values for draws of one particular length
 
     def _next(self, n: int, who: str) -> bytes:
         if self.script:
             v = self.script.pop(0)
             assert len(v) == n, (who, len(v), n)
+        elif self.script_by_size.get(n):
+            v = self.script_by_size[n].pop(0)
         elif self.collide and n and self._drawn.get(n, 0) < len(collision_family(self.tag, n)):
             k = self._drawn.get(n, 0)
             self._drawn[n] = k + 1
